@@ -132,7 +132,7 @@ func ToCommandLine(wf WireFormat, resolveIds bool) (rule string, err error) {
 	// Detect if rule is a watch.
 	// Must have all syscalls and perm field. Only other valid fields are
 	// dir, path and key, according to auditctl source
-	if permIdx, ok := existingFields[permField]; r.allSyscalls && ok {
+	if permIdx, ok := existingFields[permField]; ok && r.isFileWatch() {
 		extraFields, pos := false, 0
 		var path, key string
 	loop:
@@ -321,6 +321,34 @@ func ToCommandLine(wf WireFormat, resolveIds bool) (rule string, err error) {
 	}
 
 	return strings.Join(arguments, " "), nil
+}
+
+// isFileWatch reports whether the rule is exactly what a file watch (-w)
+// builds: always,exit for all syscalls with a path or dir, a perm and
+// optionally a key field, in that order and all compared with '='. Any other
+// rule cannot be expressed as -w without changing its meaning.
+func (r *ruleData) isFileWatch() bool {
+	if !r.allSyscalls || r.flags != exitFilter || r.action != alwaysAction {
+		return false
+	}
+	if n := len(r.fields); n != 2 && n != 3 {
+		return false
+	}
+	if r.fields[0] != pathField && r.fields[0] != dirField {
+		return false
+	}
+	if r.fields[1] != permField {
+		return false
+	}
+	if len(r.fields) == 3 && r.fields[2] != keyField {
+		return false
+	}
+	for _, op := range r.fieldFlags {
+		if op != equalOperator {
+			return false
+		}
+	}
+	return true
 }
 
 func addFileWatch(data *ruleData, rule *FileWatchRule) error {
